@@ -837,23 +837,40 @@ def run(ctx, res):
     # ---- C8 path : the walk ------------------------------------------------------------------------------------
     ops = []
     ids = [b"A", b"B", b"C", b"D"]
-    for _ in range(150 * scale):
+    for _ in range(300 * scale):
         fcs, ncs = [], []
         for _ in range(rng.choice([1, 2, 3, 4])):
             c = gen_fc(rng, "domain")
-            c.update(callId=rng.choice(ids), argnr=rng.choice([1, 1, 2]), vt=rng.choice([0, 0, 4, 7, 7]), val=rng.choice([0, 0, 1, -1, 10, 40]),
+            c.update(callId=rng.choice(ids), argnr=rng.choice([1, 1, 1, 2]), vt=rng.choice([0, 0, 4, 7, 7]), val=rng.choice([0, 0, 0, 1, -1, 10, 40]),
                      ufr=rng.choice([0, 0, 0, 1]), warn=rng.random() < 0.3)
             fcs.append(c)
-        for _ in range(rng.choice([0, 1, 2, 3])):
+        for _ in range(rng.choice([0, 1, 2, 3, 4, 5])):
             c = gen_nc(rng, "domain")
-            c.update(callId=rng.choice(ids), argnr=rng.choice([1, 1, 2]), myId=rng.choice(ids), myArgNr=rng.choice([1, 1, 2]))
+            c.update(callId=rng.choice(ids), argnr=rng.choice([1, 1, 1, 2]), myId=rng.choice(ids), myArgNr=rng.choice([1, 1, 1, 2]))
             ncs.append(c)
         u = gen_uu(rng, "domain")
-        u.update(myId=rng.choice(ids), myArgNr=rng.choice([1, 1, 2]), value=rng.choice([-1, 0, 5, 10, 20, 100]))
-        ops.append("path %d %d %d %s %s" % (rng.randrange(3), rng.randrange(2), rng.choice([0, 1, 2, 2, 3, 5, 10]), enc_fi(fcs, ncs), enc_uu(u)))
+        u.update(myId=rng.choice(ids), myArgNr=rng.choice([1, 1, 1, 2]), value=rng.choice([-1, 0, 5, 10, 20, 100]))
+        inv, warn, depth = rng.randrange(3), rng.randrange(2), rng.choice([0, 1, 2, 2, 3, 5, 10])
+        if rng.random() < 0.5:
+            # a deliberate chain: unsafe function <- nested <- ... <- function call that supplies the bad value
+            k = rng.choice([1, 2, 2, 3, 4])
+            chain = rng.sample([b"A", b"B", b"C", b"D", b"E"], k)
+            args = [rng.choice([1, 1, 2]) for _ in range(k)]
+            u.update(myId=chain[0], myArgNr=args[0])
+            for j in range(k - 1):
+                c = gen_nc(rng, "domain")
+                c.update(callId=chain[j], argnr=args[j], myId=chain[j + 1], myArgNr=args[j + 1])
+                ncs.insert(rng.randrange(len(ncs) + 1), c)
+            c = gen_fc(rng, "domain")
+            c.update(callId=chain[-1], argnr=args[-1], vt=[0, 4, 7][inv], val=rng.choice([0, 0, 0, 10]), ufr=rng.choice([0, 0, 0, 1]), warn=rng.random() < 0.2)
+            fcs.insert(rng.randrange(len(fcs) + 1), c)
+            depth = rng.choice([k - 1, k, k, k + 1, 10]) if k > 1 else depth
+        ops.append("path %d %d %d %s %s" % (inv, warn, max(0, min(10, depth)), enc_fi(fcs, ncs), enc_uu(u)))
     impl, model, _ = run_pair(ctx, res, exe, drv, "path", ops, nontrivial=lambda i: True)
     res.extra["paths_found"] = sum(1 for o in impl if not o.startswith("0"))
-    res.extra["paths_through_nested"] = sum(1 for o in impl if o.split(" ")[0] not in ("0", "2") and o.split(" ")[0].isdigit())
+    res.extra["paths_through_nested"] = sum(1 for o in impl if "43616c6c696e672066756e6374696f6e20" in o and o.count("43616c6c696e672066756e6374696f6e20") >= 2)
+    res.oblig("path:nested-walks-exercised", res.extra["paths_through_nested"] >= 10, "correspondence",
+              "only %d generated call graphs were walked through a nested call" % res.extra["paths_through_nested"])
 
     lap("path")
     # ---- C8b unused-function algorithms on generated programs --------------------------------------------------
